@@ -63,7 +63,7 @@ type c09Op struct {
 func c09Stress(w *core.Worker, i int) {
 	r := w.Rng(i, "stress")
 	d := core.FreshDir(w.Work, "stress")
-	core.WriteFiles(d, map[string]string{"counter.csv": c09Counter, "log.csv": "c,s\n", "aux.csv": "id\n1\n"})
+	core.WriteFiles(d, map[string]string{"counter.csv": c09Counter, "log.csv": "c,s\n", "aux.csv": "id\n1\n", "noop.sql": "VAR @sourced := 1;\n"})
 	trace := filepath.Join(w.Work, "stress.trace")
 	_ = os.Remove(trace)
 	profiles := []string{"", "lock.checked=2,rlock.lock_created=1", "lock.created=1,commit.removed=2,rlock.checked=1", "hold.x.begin=3,rlock.rlock_created=2,cf.closed=1"}
@@ -97,7 +97,7 @@ func c09Stress(w *core.Worker, i int) {
 				case k == 4:
 					// as above with a statement in between that runs other program text: the hold must survive it
 					op.kind = "incfuvar"
-					prog = fmt.Sprintf("VAR @v; SELECT @v := n FROM counter FOR UPDATE; EXECUTE 'PRINT ''x'';'; UPDATE counter SET n = @v + 1, m = @v + 1; INSERT INTO log VALUES (%d, %d); SELECT n FROM counter;", c, s)
+					prog = fmt.Sprintf("VAR @v; SELECT @v := n FROM counter FOR UPDATE; %s UPDATE counter SET n = @v + 1, m = @v + 1; INSERT INTO log VALUES (%d, %d); SELECT n FROM counter;", []string{"EXECUTE 'VAR @x := 1;';", "SOURCE `noop.sql`;"}[s%2], c, s)
 				case k < 5:
 					op.kind = "incfu"
 					prog = fmt.Sprintf("SELECT n FROM counter FOR UPDATE; UPDATE counter SET n = n + 1, m = m + 1; INSERT INTO log VALUES (%d, %d); SELECT n FROM counter;", c, s)
